@@ -151,3 +151,22 @@ Proof.
   assert (Hsu : sqrt m <= u) by (rewrite <- (sqrt_square u Hu0); apply sqrt_le_1; nra).
   pose proof (sqrt_pos m). unfold l, u in *. split; nra.
 Qed.
+
+(** applying the soft update d times is one soft update with coefficient 1 - (1 - tau)^d: it equals the documented
+    single step only for d = 1, tau in {0, 1} or online = target *)
+Lemma polyak_R (tau o t : R) : polyak tau o t = tau * o + (1 - tau) * t.
+Proof. reflexivity. Qed.
+
+Lemma polyak_iter (tau o t : R) (d : nat) :
+  Nat.iter d (polyak tau o) t = polyak (1 - (1 - tau) ^ d) o t.
+Proof.
+  induction d as [|d IH].
+  - change (Nat.iter 0 (polyak tau o) t) with t. rewrite polyak_R. simpl pow. ring.
+  - change (Nat.iter (S d) (polyak tau o) t) with (polyak tau o (Nat.iter d (polyak tau o) t)).
+    rewrite IH. rewrite !polyak_R. simpl pow. ring.
+Qed.
+
+Lemma polyak_twice_refuted : exists tau o t : R, 0 < tau < 1 /\ polyak tau o (polyak tau o t) <> polyak tau o t.
+Proof.
+  exists (1 / 2), 1, 0. split; [lra|]. rewrite !polyak_R. lra.
+Qed.
